@@ -86,7 +86,7 @@ CHECKS = {
              "rewrite and macro-owned attributes may differ - and a client that implements the trait relying on default bodies / associated types / "
              "supertraits must compile and compute the values the trait as written gives. The quick tier adds the three-way interactions method attribute x default body x {async, "
              "every option set}.",
-        note=NOTE + " One open known finding (associated types are dropped) is listed in known_findings.json.",
+        note=NOTE + " Two open known findings (associated types cannot be forwarded through a trait object or a delegation target trait: rejected with a diagnostic) are listed in known_findings.json.",
         technique="deviation-bounded exhaustive enumeration of trait definitions on the real macro; structural identity model + executed client",
         ref="DESIGN.md §3 C09"),
     "C10": dict(
